@@ -19,6 +19,21 @@ func init() {
 func runC09(c *Ctx) {
 	doStop := c.Func("actor", "PID.doStop")
 	postStop := c.FuncObj("actor", "Actor.PostStop")
+	c.Rule("shutdown-waits", func() {
+		// Shutdown reports success only from inside the stop lock: either it ran doStop itself, or it found the actor
+		// offline AFTER waiting for a stop in flight (whose doStop frees the children before PostStop). A success return
+		// that does not take the lock lets a second caller believe the subtree is down while it is still being stopped.
+		sh := c.Func("actor", "PID.Shutdown")
+		f := c.NewFlow(sh)
+		lock := f.CallOnField(c.Field("actor", "PID", "stopLocker"), "Lock")
+		retNil := func(n ast.Node) bool {
+			r, ok := n.(*ast.ReturnStmt)
+			return ok && len(r.Results) == 1 && isNilIdent(f.Info, r.Results[0])
+		}
+		w := f.MustPrecede(lock, nil, retNil)
+		c.Check(w == nil && len(f.Find(retNil)) >= 1 && len(f.Find(lock)) == 1, "success-only-under-stop-lock", "a local Shutdown returns success only after taking the stop lock (it waits for a stop in flight instead of returning early)", c.P.Pos(sh.Decl.Pos()), f.describe(w))
+	})
+
 	c.Rule("dostop-order", func() {
 		f := c.NewFlow(doStop)
 		fwee := f.CallTo(c.FuncObj("actor", "PID.freeWatchees"))
